@@ -28,7 +28,7 @@
                      across any amount of whitespace - this is where the `-0` defect lived.
 
    The zero-literal defect of C16 (a literal 0 of an operand printed next to the comparison operator
-   of an `if`) is REPAIRED in /repo (fix commit <commit>): [d_term] models the repaired `impl Print for
+   of an `if`) is REPAIRED in /repo (fix commit c039e57): [d_term] models the repaired `impl Print for
    IfC`; [old_d_term] / [old_d_prog] keep the printer as it was, for the regression lemmas of
    Props/C16.v.  The repaired printer emits one comment (`//` + hardline, [DComment]) where nothing
    else keeps a `0` and the operator apart.
